@@ -24,6 +24,9 @@ struct Problem {
   ld phase(int ix, int ir) const { return 0.3L * ix + 0.2L * ir; }
   ld fval(ld t) const { return f0 + f1 * cosl(w * t); }
   ld Fint(ld t) const { return f0 * t + f1 * sinl(w * t) / w; }
+  // differences of the antiderivatives without cancelling the linear part (the clock may be far from zero)
+  ld dFint(ld t0, ld t1) const { return f0 * (t1 - t0) + (f1 != 0 ? f1 * (sinl(w * t1) - sinl(w * t0)) / w : 0); }
+  ld dGint(int ix, int is, ld t0, ld t1) const { return (g0 * (t1 - t0) + (g_timedep ? g1 * (sinl(w * t1) - sinl(w * t0)) / w : 0)) * fS(ix, is); }
   ld gval(int ix, int is, ld t) const { return (g0 + (g_timedep ? g1 * cosl(w * t) : 0)) * fS(ix, is); }
   ld Gint(int ix, int is, ld t) const { return (g0 * t + (g_timedep ? g1 * sinl(w * t) / w : 0)) * fS(ix, is); }
   static Mat lin(const std::vector<double>& a, ld ca, const std::vector<double>& b, ld cb, int d) { std::vector<double> z(d * d, 0.0); Mat A = a.empty() ? Mat(d) : toM(a, d), B = b.empty() ? Mat(d) : toM(b, d); return scale(A, cld(ca, 0)) + scale(B, cld(cb, 0)); }
@@ -66,7 +69,7 @@ struct Problem {
     }
     Mat E = toM(D1, d), G = toM(D2, d), C = toM(Cd, d);
     Mat R(d);
-    ld dF = (Fint(t1) - Fint(t0)) * fH(ix, ir), dt = t1 - t0;
+    ld dF = dFint(t0, t1) * fH(ix, ir), dt = t1 - t0;
     for (int j = 0; j < d; j++) for (int k = 0; k < d; k++) {
       ld a = (mask & M_NC) ? (G.a[j][j].real() + G.a[k][k].real()) * fG(ix, ir) : 0;
       if (j != k) {
@@ -82,10 +85,10 @@ struct Problem {
     return R;
   }
   ld exact_scalar(int ix, int is, ld s0, ld t0, ld t1, unsigned mask) const {
-    if (manufactured_scalar) return (mask & M_OS) ? starget(ix, is, t1) : s0 * ((mask & M_GS) ? expl(-(Gint(ix, is, t1) - Gint(ix, is, t0))) : 1);
+    if (manufactured_scalar) return (mask & M_OS) ? starget(ix, is, t1) : s0 * ((mask & M_GS) ? expl(-dGint(ix, is, t0, t1)) : 1);
     ld c = (mask & M_OS) ? c0 * fS(ix, is) : 0;
     if (!(mask & M_GS)) return s0 + c * (t1 - t0);
-    if (c == 0) return s0 * expl(-(Gint(ix, is, t1) - Gint(ix, is, t0)));
+    if (c == 0) return s0 * expl(-dGint(ix, is, t0, t1));
     ld g = g0 * fS(ix, is);  // with a source g is constant (g_timedep is false by construction)
     ld dt = t1 - t0;
     return s0 * expl(-g * dt) + c * (g * dt != 0 ? -expm1l(-g * dt) / g : dt);
